@@ -119,8 +119,17 @@ def rule_order(ctx: Ctx) -> None:
         conditional = isinstance(r0, ast.IfExp) and any(isinstance(arm, ast.Constant) and arm.value is None for arm in (r0.body, r0.orelse))
         ctx.tri("2-order", prep, c, "inputs" in norm(r0) and not conditional, conditional, "the supplied inputs always take part in the restriction",
                 f"`{norm(r0)[:60]}`: the supplied inputs are only passed on under a condition; otherwise a supplied intermediate does not cut the pipeline and its producers' inputs are reported missing", key="inputs-passed")
+    # every validator that is handed `pipeline` judges the request against the RESTRICTED pipeline (fixed_indices, axes, slurm executor
+    # ... as well as the completeness of the inputs): none of them may run before the restriction rebinds the name
+    others = []
+    for n_ in cfg.nodes(lambda s_: isinstance(s_, ast.Expr) and isinstance(s_.value, ast.Call)):
+        c_ = cfg.stmt[n_].value
+        nm_ = dotted(c_.func).rsplit(".", 1)[-1]
+        if nm_.startswith(("_validate", "validate")) and any(isinstance(x, ast.Name) and x.id in bound for a_ in [*c_.args, *[k.value for k in c_.keywords]] for x in ast.walk(a_)):
+            others.append(n_)
+    comp = sorted(set(comp) | set(others))
     late = [n for n in sub if any(n in cfg.reachable_from(c) for c in comp + create)]
-    ctx.add("2-order", prep, cfg.stmt[(late or comp)[0]], not late, "completeness check and run creation come after the restriction" if not late else "inputs are validated (or the run is created) against the unrestricted pipeline: the restriction happens afterwards", key="restrict-before-validate")
+    ctx.add("2-order", prep, cfg.stmt[(late or comp)[0]], not late, "every validator that looks at the pipeline, and the run creation, come after the restriction" if not late else "the request (inputs / fixed_indices / axes) is validated - or the run created - against the UNrestricted pipeline, the restriction happens afterwards: valid restricted requests are refused because of functions that are not part of them, invalid ones slip through", key="restrict-before-validate")
 
 
 def rule_message(ctx: Ctx) -> None:
